@@ -193,7 +193,10 @@ fn folding_iterators(ctx: &mut Ctx, idx: u64, rng: &mut ChaCha20Rng) {
 }
 
 fn folding_commit_open(ctx: &mut Ctx, rng: &mut ChaCha20Rng) {
-    let w = match stream_world(rng, 128) {
+    // one case in twelve: the smallest keys (one or two powers), where a folded polynomial exactly fills the key
+    let tiny = !crate::schemes::is_large() && rng.next_u32() % 12 == 0;
+    let tiny_deg = below(rng, 2);
+    let w = match if tiny { super::offtrait::stream_world_deg(rng, tiny_deg) } else { stream_world(rng, 128) } {
         Ok(w) => w,
         Err(_) => return ctx.skipped("baseline", "setup refused"),
     };
